@@ -8,12 +8,15 @@
 //!   xv / rxv      `TensorView<T, TensorTranspose<T, Tensor<T, D>, D>, D>` (exactly one `transpose`)
 //!   bv / rbv      `TensorView<T, Box<dyn TensorRef<T, D>>, D>`          (any adaptor chain)
 //! matrices: m / rm, w / rw (`MatrixView<T, Matrix<T>>`), qw / rqw (`MatrixView<T, &Matrix<T>>`),
-//!   gw / rgw (`MatrixView<T, MatrixRange<T, Matrix<T>>>`, exactly one `range`), bw / rbw (boxed).
+//!   gw / rgw (`MatrixView<T, MatrixRange<T, Matrix<T>>>`, exactly one `range`), bw / rbw (boxed),
+//!   tw / rtw (`MatrixView<T, MatrixRefTensor<T, TensorAccess<T, Tensor<T, 2>, 2>>>`: a matrix view
+//!   of a tensor accessed in another dimension order — its `data_layout()` is `ColumnMajor`).
 //! The 16 forms of the operator macros are {owned, borrowed} x {container, view} on each side;
 //! every view flavour above counts as "view".
 
 use crate::exact::{Fp, Rat, P};
 use crate::util::*;
+use easy_ml::interop::MatrixRefTensor;
 use easy_ml::matrices::views::{MatrixRange, MatrixRef, MatrixReverse, MatrixView, Reverse};
 use easy_ml::matrices::Matrix;
 use easy_ml::tensors::indexing::{TensorAccess, TensorTranspose};
@@ -84,6 +87,7 @@ const M_LITE: [&str; 4] = ["m", "rm", "bw", "rbw"];
 const M_PLAIN: [&str; 8] = ["m", "rm", "w", "rw", "qw", "rqw", "bw", "rbw"];
 const M_RANGE: [&str; 4] = ["gw", "rgw", "bw", "rbw"];
 const M_BOXED: [&str; 2] = ["bw", "rbw"];
+const M_TENSOR: [&str; 4] = ["tw", "rtw", "bw", "rbw"];
 
 fn is_main_t(f: &str) -> bool {
     matches!(f, "t" | "rt" | "v" | "rv" | "bv" | "rbv")
@@ -95,7 +99,7 @@ fn is_main_m(f: &str) -> bool {
 fn main_of(f: &'static str) -> &'static str {
     match f {
         "qv" => "v", "rqv" => "rv", "av" | "xv" => "bv", "rav" | "rxv" => "rbv",
-        "qw" => "w", "rqw" => "rw", "gw" => "bw", "rgw" => "rbw",
+        "qw" => "w", "rqw" => "rw", "gw" | "tw" => "bw", "rgw" | "rtw" => "rbw",
         other => other,
     }
 }
@@ -324,6 +328,39 @@ impl<'a> CaseGen<'a> {
                 self.g.count("operand.matrixview.reverse");
                 GOp { name, shape: vec![("row", rows), ("column", cols)], forms: &M_BOXED, kind: "mreverse" }
             }
+            3 | 4 | 5 | 6 => {
+                // MatrixRefTensor over a tensor view: 3 = TensorAccess in swapped dimension order
+                // (data_layout ColumnMajor), 4 = the same with a MatrixRange on top, 5 = a
+                // TensorTranspose, 6 = the plain tensor (RowMajor)
+                let (extra_r, extra_c) = if kind == 4 { (self.g.rng.below(2) + 1, self.g.rng.below(2)) } else { (0, 0) };
+                let (tr, tc) = (rows + extra_r, cols + extra_c);
+                let view_name = match kind {
+                    3 | 4 => {
+                        let t = self.tensor(&[(intern("c"), tc), (intern("r"), tr)]);
+                        let v = self.fresh("V");
+                        self.g.op(format!("v {} {} access r,c", v, t.name));
+                        v
+                    }
+                    5 => {
+                        let t = self.tensor(&[(intern("r"), tc), (intern("c"), tr)]);
+                        let v = self.fresh("V");
+                        self.g.op(format!("v {} {} transpose c,r", v, t.name));
+                        v
+                    }
+                    _ => self.tensor(&[(intern("r"), tr), (intern("c"), tc)]).name,
+                };
+                let w = self.fresh("W");
+                self.g.op(format!("w {} {} oftensor", w, view_name));
+                self.g.count(&format!("operand.matrixview.oftensor.kind{}", kind));
+                if kind == 4 {
+                    let name = self.fresh("W");
+                    let (rb, cb) = (self.g.rng.below(extra_r + 1), self.g.rng.below(extra_c + 1));
+                    self.g.op(format!("w {} {} range {}:{} {}:{}", name, w, rb, rows, cb, cols));
+                    return GOp { name, shape: vec![("row", rows), ("column", cols)], forms: &M_BOXED, kind: "moftensor_range" };
+                }
+                let forms: &'static [&'static str] = if self.e == Ety::Fp && kind == 3 { &M_TENSOR } else { &M_BOXED };
+                GOp { name: w, shape: vec![("row", rows), ("column", cols)], forms, kind: "moftensor" }
+            }
             _ => {
                 let s = self.matrix(rows + 1, cols + 1);
                 let n1 = self.fresh("W");
@@ -504,7 +541,7 @@ fn gen_matmul_case(g: &mut Gen, e: Ety, m: usize, n: usize, l: usize) {
     // the same data through the matrix API
     let am = c.matrix(m, n);
     let bm = c.matrix(n, l);
-    let (k1, k2) = (c.g.rng.below(3), c.g.rng.below(3));
+    let (k1, k2) = (c.g.rng.below(7), c.g.rng.below(7));
     let wa = c.matrix_view(m, n, k1);
     let wb = c.matrix_view(n, l, k2);
     for lw in FORMS4 {
@@ -584,8 +621,8 @@ fn gen_matmul_reject_case(g: &mut Gen, e: Ety) {
         if why == "matrix_size_transposed" && m == n + 1 {
             continue;
         }
-        let lo = if c.g.rng.chance(1, 2) { c.matrix(a, b) } else { let k = c.g.rng.below(3); c.matrix_view(a, b, k) };
-        let ro = if c.g.rng.chance(1, 2) { c.matrix(x, y) } else { let k = c.g.rng.below(3); c.matrix_view(x, y, k) };
+        let lo = if c.g.rng.chance(1, 2) { c.matrix(a, b) } else { let k = c.g.rng.below(7); c.matrix_view(a, b, k) };
+        let ro = if c.g.rng.chance(1, 2) { c.matrix(x, y) } else { let k = c.g.rng.below(7); c.matrix_view(x, y, k) };
         let lw = FORMS4[c.g.rng.below(4)];
         let rw = FORMS4[c.g.rng.below(4)];
         let lf = c.pick_form(&lo, lw);
@@ -600,7 +637,8 @@ fn gen_matrix_elementwise_case(g: &mut Gen, e: Ety, rows: usize, cols: usize) {
     let mut c = CaseGen::new(g, e);
     let a = c.matrix(rows, cols);
     let b = c.matrix(rows, cols);
-    let (k1, k2) = (c.g.rng.below(3), c.g.rng.below(3));
+    // the second view is always a matrix view of a tensor in swapped order (column-major source)
+    let (k1, k2) = (c.g.rng.below(7), 3 + c.g.rng.below(3));
     let w1 = c.matrix_view(rows, cols, k1);
     let w2 = c.matrix_view(rows, cols, k2);
     for op in ["add", "sub"] {
@@ -619,6 +657,9 @@ fn gen_matrix_elementwise_case(g: &mut Gen, e: Ety, rows: usize, cols: usize) {
         for f in o.forms.iter() {
             c.g.op(format!("neg {} via={}", o.name, f));
             c.g.count(&format!("matrix.neg.form.{}", base_form(f)));
+            c.g.op(format!("mmap {} via={}", o.name, f));
+            c.g.count(&format!("matrix.map.form.{}", base_form(f)));
+            c.g.count(&format!("matrix.neg_map.operand.{}", o.kind));
         }
         for op in ["sadd", "ssub", "smul", "sdiv"] {
             for sf in ["s", "rs"] {
@@ -993,6 +1034,8 @@ macro_rules! with_m_extra {
             "rqw" => { let tmp = $o.plain(); let tmp2 = MatrixView::from(&tmp); let $x = &tmp2; $body }
             "gw" => { let $x = MatrixView::from($o.ranged()); $body }
             "rgw" => { let tmp = MatrixView::from($o.ranged()); let $x = &tmp; $body }
+            "tw" => { let $x = MatrixView::from($o.of_tensor_access()); $body }
+            "rtw" => { let tmp = MatrixView::from($o.of_tensor_access()); let $x = &tmp; $body }
             other => panic!("unknown extra matrix form {}", other),
         }
     };
@@ -1174,6 +1217,8 @@ macro_rules! runner_for {
             #[derive(Clone)]
             pub struct MOp {
                 base: Matrix<T>,
+                /// `Some`: the operand is `MatrixRefTensor` over this tensor operand (`base` unused)
+                tsrc: Option<TOp<2>>,
                 ads: Vec<MAd>,
             }
 
@@ -1186,19 +1231,28 @@ macro_rules! runner_for {
 
             impl MOp {
                 pub fn boxed(&self) -> MDyn {
-                    let mut cur: MDyn = Box::new(self.base.clone());
+                    let mut cur: MDyn = match &self.tsrc {
+                        Some(t) => Box::new(MatrixRefTensor::from(t.boxed())),
+                        None => Box::new(self.base.clone()),
+                    };
                     for ad in &self.ads {
                         cur = mwrap(cur, ad);
                     }
                     cur
                 }
                 pub fn plain(&self) -> Matrix<T> {
-                    assert!(self.ads.is_empty(), "form needs a plain matrix");
+                    assert!(self.ads.is_empty() && self.tsrc.is_none(), "form needs a plain matrix");
                     self.base.clone()
+                }
+                pub fn of_tensor_access(&self) -> MatrixRefTensor<T, TensorAccess<T, Tensor<T, 2>, 2>> {
+                    match (&self.tsrc, &self.ads[..]) {
+                        (Some(t), []) => MatrixRefTensor::from(t.access()),
+                        _ => panic!("form needs a matrix view of one accessed tensor"),
+                    }
                 }
                 pub fn ranged(&self) -> MatrixRange<T, Matrix<T>> {
                     match &self.ads[..] {
-                        [MAd::Range(r, c)] => MatrixRange::from(self.base.clone(), *r, *c),
+                        [MAd::Range(r, c)] if self.tsrc.is_none() => MatrixRange::from(self.base.clone(), *r, *c),
                         _ => panic!("form needs exactly one range adaptor"),
                     }
                 }
@@ -1289,6 +1343,12 @@ macro_rules! runner_for {
                 panic_or(res, |m| show_matrix(&m))
             }
 
+            fn mmap(o: &MOp, f: &str) -> String {
+                let res: Result<Matrix<T>, PanicKind> =
+                    $one_m!(f, o, x => catch(|| x.map(|e| e.clone() * e.clone() - e)));
+                panic_or(res, |m| show_matrix(&m))
+            }
+
             fn mneg(o: &MOp, f: &str) -> String {
                 let res: Result<Matrix<T>, PanicKind> = $one_m!(f, o, x => catch(|| -x));
                 panic_or(res, |m| show_matrix(&m))
@@ -1374,10 +1434,29 @@ macro_rules! runner_for {
                             let vals: Vec<T> = split_comma(vals_s).iter().map(|s| <T as Elem>::parse(s)).collect();
                             match catch(|| Matrix::from_flat_row_major((r, c), vals)) {
                                 Ok(m) => {
-                                    self.mats.insert(0, (name.to_string(), MOp { base: m, ads: vec![] }));
+                                    self.mats.insert(0, (name.to_string(), MOp { base: m, tsrc: None, ads: vec![] }));
                                     "ok".into()
                                 }
                                 Err(k) => panic_str(k),
+                            }
+                        }
+                        ["w", name, src, "oftensor"] => {
+                            let t = match self.tensor(src) {
+                                Some(AnyT::D2(t)) => t.clone(),
+                                Some(_) => return "none".into(),
+                                None => return "no-operand".into(),
+                            };
+                            match catch(|| {
+                                let v = TensorView::from(t.boxed());
+                                let shape = v.shape();
+                                let data: Vec<T> = v.iter().collect();
+                                (shape, Matrix::from_flat_row_major((shape[0].1, shape[1].1), data))
+                            }) {
+                                Ok((shape, m)) => {
+                                    self.mats.insert(0, (name.to_string(), MOp { base: m, tsrc: Some(t), ads: vec![] }));
+                                    format!("ok size={}x{}", shape[0].1, shape[1].1)
+                                }
+                                Err(_) => "none".into(),
                             }
                         }
                         ["w", name, src, kind, args @ ..] => {
@@ -1459,6 +1538,13 @@ macro_rules! runner_for {
                                 mscalar(op, x, &s, f, sf)
                             } else {
                                 "no-operand".into()
+                            }
+                        }
+                        ["mmap", a, rest @ ..] => {
+                            let f = opt_arg("via", rest).unwrap_or("rm");
+                            match self.matrix(a) {
+                                Some(x) => mmap(x, f),
+                                None => "no-operand".into(),
                             }
                         }
                         ["neg", a, rest @ ..] => {
